@@ -10,6 +10,7 @@ import (
 	"strings"
 	"sync"
 	"sync/atomic"
+	"time"
 
 	"golang.org/x/net/dns/dnsmessage"
 )
@@ -34,6 +35,7 @@ type Query struct {
 	Version   int      // zone version the answer was computed from
 	Answers   int      // RRs in the answer section
 	Poisoned  bool     // the answer carried RRs owned by unrelated names
+	Overlap   int      // queries whose answer had not been written yet when this one arrived
 	Unordered bool     // a CNAME record of the answer stood after records owned by its target
 }
 
@@ -53,7 +55,12 @@ type Server struct {
 	log      []Query
 	onQuery  func(Query)
 	epoch    int // bumped by Reset: answers computed for an older epoch are neither logged nor sent
+	active   atomic.Int64
+	delay    atomic.Int64
 }
+
+// SetDelay makes the server wait d before it answers each query (0 = none).
+func (s *Server) SetDelay(d time.Duration) { s.delay.Store(int64(d)) }
 
 // NewServer starts a server answering from z.
 func NewServer(z *Zone) *Server {
@@ -79,6 +86,7 @@ func (s *Server) Reset(z *Zone) {
 	s.zone, s.version, s.fail, s.log, s.onQuery = z, 0, FailNone, nil, nil
 	s.epoch++
 	s.seq.Store(0)
+	s.delay.Store(0)
 }
 
 // SetZone replaces the universe; Update edits it under the server's lock.
@@ -281,12 +289,17 @@ func (s *Server) ServeHTTP(w http.ResponseWriter, req *http.Request) {
 		return
 	}
 	q, pq, id := Inspect(body)
+	q.Overlap = int(s.active.Add(1) - 1)
+	defer s.active.Add(-1)
 	s.mu.Lock()
 	q.Seq = s.seq.Add(1)
 	gate, hook, epoch := s.gates[q.Name], s.onQuery, s.epoch
 	s.mu.Unlock()
 	if hook != nil {
 		hook(q)
+	}
+	if d := time.Duration(s.delay.Load()); d > 0 {
+		time.Sleep(d) // an injected delay (SetDelay): queries that a client sends at the same time are then in flight together
 	}
 	if gate != nil {
 		select {
